@@ -19,8 +19,10 @@
 (*            parameters of (1/2 ln I_ii + ln|theta_i|), kk = #kept  (P3)  *)
 (*   nllok    the reported -log L is the likelihood at the reported params *)
 (* The property does not say which parameters are dropped when dropping    *)
-(* all small ones makes the likelihood infinite: any finite subset, or     *)
-(* none, is admitted (a relation, not a function).                         *)
+(* all small ones makes the likelihood infinite: any non-empty subset that *)
+(* keeps it finite is admitted; dropping nothing is admitted only when no  *)
+(* small parameter can be zeroed on its own ("set to zero and dropped      *)
+(* provided the likelihood stays finite") - a relation, not a function.    *)
 (***************************************************************************)
 EXTENDS Naturals, FiniteSets, Sequences, TLC, Json
 
@@ -30,11 +32,12 @@ Params(k) == 1..k
 Fin(bad, Z) == Z \notin bad
 
 (* admissible dropped sets: with S the set of small parameters, nothing is dropped if S is empty, exactly S
-   if the likelihood stays finite, otherwise any subset that keeps it finite, or nothing.  Parameters exactly
-   at the threshold may fall on either side. *)
+   if the likelihood stays finite, otherwise any non-empty subset that keeps it finite (or nothing, when no small
+   parameter can be zeroed alone).  Parameters exactly at the threshold may fall on either side. *)
 AdmFor(S, bad) == IF S = {} THEN {{}}
                   ELSE IF Fin(bad, S) THEN {S}
-                  ELSE {D \in SUBSET S : D = {} \/ Fin(bad, D)}
+                  ELSE LET F == {D \in (SUBSET S) \ {{}} : Fin(bad, D)} IN
+                       IF \E i \in S : Fin(bad, {i}) THEN F ELSE F \cup {{}}
 Admissible(k, small, tie, bad) == UNION {AdmFor((small \ tie) \cup Y, bad) : Y \in SUBSET tie}
 
 Clauses(c) ==
